@@ -33,6 +33,24 @@ def def_cfg(switches: Dict[str, bool], invariants: List[str], properties: List[s
 
 def model_check_def(hists: List[dict], switches: Dict[str, bool], invariants: Optional[List[str]] = None,
                     properties: Optional[List[str]] = None, emit: bool = True) -> Tuple[tlc.TlcResult, Dict[int, Dict[int, dict]]]:
+    CHUNK = 4000
+    if len(hists) > CHUNK:
+        # big families are explored in several TLC runs (every history is an initial state of its own, so the union of the
+        # runs is the exploration of the whole family); keeps the heap bounded
+        total = tlc.TlcResult()
+        total.ok = True
+        merged = {}  # type: Dict[int, Dict[int, dict]]
+        for off in range(0, len(hists), CHUNK):
+            r, part = model_check_def(hists[off:off + CHUNK], switches, invariants, properties, emit)
+            total.states += r.states
+            total.distinct += r.distinct
+            total.depth = max(total.depth, r.depth)
+            total.wall += r.wall
+            merged.update(part)
+            if not r.ok:
+                total.ok, total.violated, total.error, total.raw, total.trace = False, r.violated, r.error, r.raw, r.trace
+                break
+        return total, merged
     wd = tlc.scratch_dir("icv-def-")
     try:
         hfile = os.path.join(wd, "hists.ndjson")
